@@ -32,7 +32,7 @@ func (e *C10) Assumptions() []string {
 }
 func (e *C10) Plan(tier string, seed uint64) int {
 	if tier == "thorough" {
-		return 200000
+		return 2000000
 	}
 	return 40000
 }
